@@ -673,6 +673,16 @@ func (e *env) v2Witness(cs consensus.State, orig types.Block, kinds []string) {
 					return true
 				})
 			}
+			// legacy unlock conditions spent through the v2 policy: one holder of an m-of-n key set repeating their own
+			// signature does not make m signatures
+			if l.UC != nil && len(in.SatisfiedPolicy.Signatures) > 1 && in.SatisfiedPolicy.Signatures[0] != in.SatisfiedPolicy.Signatures[1] && !hasUnknown && distinctKeys {
+				variant("one-key-signs-twice-instead-of-two-distinct-keys/"+l.Kind, true, func(tt *types.V2Transaction) bool {
+					sp := &tt.SiacoinInputs[k].SatisfiedPolicy
+					sp.Signatures[1] = sp.Signatures[0]
+					e.b.Count("v2_multisig_spends_with_one_signature_repeated", 1)
+					return true
+				})
+			}
 			// another actor's policy with that actor's valid signature
 			variant("policy-substituted-and-signed-by-other-actor", true, func(tt *types.V2Transaction) bool {
 				for _, key := range c.W.Keys {
